@@ -6,9 +6,10 @@ CONSTANTS
   MaxOps = 1000000
   F2Quirk = FALSE
   KVDupQuirk = FALSE
+  Lossy = {}
   Descs <- MCDescs
   Reasons <- MCReasons
 VIEW ViewFull
 INVARIANTS TypeOK NoOverpay StatusTruthful UniqueIds
-PROPERTIES AdmitOnlyWhenOpen InitRefused RefusalIsNoOp SucceededAbsorbing FailedOnlyViaInit AttemptStable OwnHashOnly
+PROPERTIES AdmitOnlyWhenOpen InitRefused RefusalIsNoOp SucceededAbsorbing FailedOnlyViaInit AttemptStable OwnHashOnly RoundTrip AdmitByRegistered
 CHECK_DEADLOCK FALSE
